@@ -69,6 +69,9 @@ func c17Enumerate(tier string, base uint64, emit func(*vfScenario)) {
 	for part := 0; part < 8; part++ {
 		emit(&vfScenario{Prop: "C17", Class: "chmod", Seed: vfMix(vfMix(base, 0xc17), uint64(part)), Cfg: map[string]int64{"kind": 0, "part": int64(part), "ssites": 3, "csites": 0}})
 	}
+	// the client's own set-attribute entry points over ladders of boundary values
+	emit(&vfScenario{Prop: "C17", Class: "clientapi", Seed: vfMix(base, 0xc17c), Cfg: map[string]int64{"kind": 0, "ssites": 3, "csites": 0}})
+	emit(&vfScenario{Prop: "C17", Class: "clientapi", Seed: vfMix(base, 0xc17d), Cfg: map[string]int64{"kind": 0, "ssites": 1, "csites": 0, "alloc": 1, "fstat": 1}})
 	// every attribute flag subset for SETSTAT and FSETSTAT on each target
 	n := 0
 	for fl := 0; fl < 16; fl++ {
@@ -210,6 +213,8 @@ func c17Exec(r *vfRun) {
 		c17Table(r)
 	case "chmod":
 		c17Chmod(r)
+	case "clientapi":
+		c17ClientAPI(r)
 	case "setstat":
 		c17Setstat(r)
 	default:
@@ -663,4 +668,142 @@ func c17Chmod(r *vfRun) {
 	sim.countN("probe.chmod_values", 512)
 	r.res.NonTrivial = true
 	_ = sort.Strings
+}
+
+// c17ClientAPI: Chtimes, Chown, Truncate and Chmod through the Client's and the File's own entry points (each builds its
+// SETSTAT / FSETSTAT itself), over ladders of boundary values; after every call the file system must show exactly that
+// value (and the other attributes unchanged), and Stat through the client must agree with the file system.
+func c17ClientAPI(r *vfRun) {
+	sim := r.sim
+	v, err := vfStartFileSystem(r, nil)
+	defer v.cleanup()
+	if err != nil {
+		r.fail("C17/handshake", "handshake", "handshake failed: %v", err)
+		return
+	}
+	os.WriteFile(v.root+"/reg", []byte("0123456789"), 0o644)
+	times := []int64{1, 86400, 946684800, 1<<31 - 1, 1 << 31, 1<<31 + 12345, 2240000000, 4000000000, 1<<32 - 1}
+	ids := []int{0, 1, 1234, 65534, 65535, 1<<31 - 1, 1 << 31, 1<<32 - 2}
+	sizes := []int64{0, 1, 4095, 4096, 1<<31 - 1, 1 << 31, 1<<32 + 5, 1 << 40, 10}
+	var mismatch string
+	look := func() (os.FileInfo, *syscall.Stat_t) {
+		fi, _ := os.Lstat(v.root + "/reg")
+		st, _ := fi.Sys().(*syscall.Stat_t)
+		return fi, st
+	}
+	agree := func(what string) bool {
+		fi, st := look()
+		gi, err := v.c.Stat("reg")
+		if err != nil {
+			mismatch = fmt.Sprintf("after %s: Stat failed: %v", what, err)
+			return false
+		}
+		gs, _ := gi.Sys().(*FileStat)
+		if gi.Size() != fi.Size() || gi.Mode() != fi.Mode() || gi.ModTime().Unix() != fi.ModTime().Unix() || gs == nil || gs.UID != st.Uid || gs.GID != st.Gid {
+			mismatch = fmt.Sprintf("after %s: Stat reports size=%d mode=%v mtime=%d owner=%v, the file system has size=%d mode=%v mtime=%d owner=%d:%d", what, gi.Size(), gi.Mode(), gi.ModTime().Unix(), gs, fi.Size(), fi.Mode(), fi.ModTime().Unix(), st.Uid, st.Gid)
+			return false
+		}
+		return true
+	}
+	tk := vfSpawnTask(sim, 0, 1, func(int) {
+		f, err := v.c.OpenFile("reg", os.O_RDWR)
+		if err != nil {
+			mismatch = fmt.Sprintf("open: %v", err)
+			return
+		}
+		defer f.Close()
+		for i, at := range times {
+			mt := times[(i+3)%len(times)]
+			if err := v.c.Chtimes("reg", time.Unix(at, 0), time.Unix(mt, 0)); err != nil {
+				mismatch = fmt.Sprintf("Chtimes(%d, %d): %v", at, mt, err)
+				return
+			}
+			fi, st := look()
+			if fi.ModTime().Unix() != mt || st.Atim.Sec != at || fi.Size() != 10 || fi.Mode().Perm() != 0o644 {
+				mismatch = fmt.Sprintf("after Chtimes(atime=%d, mtime=%d) the file system has atime=%d mtime=%d size=%d mode=%v", at, mt, st.Atim.Sec, fi.ModTime().Unix(), fi.Size(), fi.Mode())
+				return
+			}
+			if !agree(fmt.Sprintf("Chtimes(%d, %d)", at, mt)) {
+				return
+			}
+		}
+		for i, uid := range ids {
+			gid := ids[(i+5)%len(ids)]
+			var err error
+			what := fmt.Sprintf("Chown(%d, %d)", uid, gid)
+			if i%2 == 0 {
+				err = v.c.Chown("reg", uid, gid)
+			} else {
+				what = "File." + what
+				err = f.Chown(uid, gid)
+			}
+			if err != nil {
+				mismatch = fmt.Sprintf("%s: %v", what, err)
+				return
+			}
+			fi, st := look()
+			if st.Uid != uint32(uid) || st.Gid != uint32(gid) || fi.Size() != 10 || fi.ModTime().Unix() != times[(len(times)-1+3)%len(times)] {
+				mismatch = fmt.Sprintf("after %s the file system has owner %d:%d size=%d mtime=%d", what, st.Uid, st.Gid, fi.Size(), fi.ModTime().Unix())
+				return
+			}
+			if !agree(what) {
+				return
+			}
+		}
+		for i, m := range []os.FileMode{0, 0o777, 0o640 | os.ModeSetuid, 0o751 | os.ModeSetgid | os.ModeSticky, 0o600} {
+			var err error
+			what := fmt.Sprintf("Chmod(%v)", m)
+			if i%2 == 0 {
+				what = "File." + what
+				err = f.Chmod(m)
+			} else {
+				err = v.c.Chmod("reg", m)
+			}
+			if err != nil {
+				mismatch = fmt.Sprintf("%s: %v", what, err)
+				return
+			}
+			fi, st := look()
+			mask := os.ModePerm | os.ModeSetuid | os.ModeSetgid | os.ModeSticky
+			if fi.Mode()&mask != m || st.Uid != uint32(ids[len(ids)-1]) || fi.Size() != 10 {
+				mismatch = fmt.Sprintf("after %s the file system has mode %v owner %d size=%d", what, fi.Mode()&mask, st.Uid, fi.Size())
+				return
+			}
+			if !agree(what) {
+				return
+			}
+		}
+		for i, sz := range sizes {
+			var err error
+			what := fmt.Sprintf("Truncate(%d)", sz)
+			if i%2 == 0 {
+				err = v.c.Truncate("reg", sz)
+			} else {
+				what = "File." + what
+				err = f.Truncate(sz)
+			}
+			if err != nil {
+				mismatch = fmt.Sprintf("%s: %v", what, err)
+				return
+			}
+			fi, st := look()
+			if fi.Size() != sz || fi.Mode().Perm() != 0o600 || st.Uid != uint32(ids[len(ids)-1]) {
+				mismatch = fmt.Sprintf("after %s the file system has size=%d mode=%v owner=%d", what, fi.Size(), fi.Mode(), st.Uid)
+				return
+			}
+			if !agree(what) {
+				return
+			}
+		}
+	})
+	sim.run(tk.finished)
+	if sim.failed() {
+		return
+	}
+	if !tk.finished() || mismatch != "" {
+		r.fail("C17/client-setattr", "clientapi", "%s (finished=%v)", mismatch, tk.finished())
+		return
+	}
+	sim.count("probe.client_setattr_ladders")
+	r.res.NonTrivial = true
 }
